@@ -477,6 +477,17 @@ let witness_hdrs () : hcase list =
 let hdr_cases ~seed ~n ~(raw : bool) (k : hcase -> unit) =
   let r = mk_rng seed in
   if raw then List.iter k (witness_hdrs ());
+  (* every fde_count encoding byte (only bare formats are accepted) and every table encoding byte *)
+  if raw then begin
+    let ec = { eh = true; be = false; asz = 8; bsec = None; btext = None; bdata = None } in
+    let body = [0; 0x10; 0; 0;  2; 0; 0; 0; 0; 0; 0; 0;  0x10; 0; 0; 0; 0; 0x10; 0; 0; 0x20; 0; 0; 0; 0; 0x10; 0; 0; 9; 9; 9; 9] in
+    for e = 0 to 255 do
+      k { hbe = false; hasz = 8; hb = (Some (Z.of_int 0x100), Some (Z.of_int 0x200), Some (Z.of_int 0x300));
+          hbytes = [1; 0x03; e; 0x03] @ body; ec; ebytes = [0; 0; 0; 0]; wf = false; addrs = [Z.of_int 0x18] };
+      k { hbe = false; hasz = 4; hb = (Some (Z.of_int 0x100), None, Some (Z.of_int 0x300));
+          hbytes = [1; 0x03; 0x03; e] @ body; ec; ebytes = [0; 0; 0; 0]; wf = false; addrs = [Z.of_int 0x18; Z.of_int 0x1000] }
+    done
+  end;
   (* length 0: an omitted / zero fde_count means "no table" *)
   (let ec = { eh = true; be = false; asz = 8; bsec = None; btext = None; bdata = None } in
    List.iter (fun hb ->
@@ -615,7 +626,10 @@ let () =
           [ [0;0;0;0]; [0;0;0;0;0;0;0;0]; [0xff;0xff;0xff;0xff]; [0xff;0xff;0xff;0xff;0;0;0;0;0;0;0;0];
             [0xff;0xff;0xff;0xff;0;0;0;0;0;0;0;0;1;0;0;0;0]; [0xf0;0xff;0xff;0xff]; [0xef;0xff;0xff;0xff]; [4;0;0;0;0;0;0;0];
             [4;0;0;0;0xff;0xff;0xff;0xff]; [1;0;0;0;0]; [0;0;0;0;4;0;0;0;0;0;0;0];
-            [0;0;0;0;0;0;0;0;0;0;0;0;0;0;0;0;0;0;0;0;0;0;0;0;0;0;0;1] ]) [false; true]
+            [0;0;0;0;0;0;0;0;0;0;0;0;0;0;0;0;0;0;0;0;0;0;0;0;0;0;0;1];
+            (* a zero length followed by 1..3 stray bytes (shorter than any length word) *)
+            [0;0;0;0;1]; [0;0;0;0;1;2]; [0;0;0;0;1;2;3]; [0;0;0;0;0]; [0;0;0;0;0;0;0;0;5;6];
+            [0xff;0xff;0xff;0xff;0;0;0;0;0;0;0;0;7]; [0xff;0xff;0xff;0xff;0;0;0;0;0;0;0;0;0;0] ]) [false; true]
     end;
     for _ = 1 to n do
       let c = rand_cfg r ~eh:(rand_bool r) in
@@ -626,6 +640,9 @@ let () =
       let bytes = if raw then (if rand_int r 3 <> 0 then mutate_body r starts bytes
                                else (let b = mutate r bytes in if rand_int r 3 = 0 then mutate r b else b)) else bytes in
       let bytes = if raw && rand_int r 15 = 0 then rand_bytes r (rand_int r 48) else bytes in
+      (* trailing garbage / a trailing zero length with stray bytes *)
+      let bytes = if raw && rand_int r 8 = 0 then
+          bytes @ (if rand_bool r then [0; 0; 0; 0] else []) @ rand_bytes r (1 + rand_int r 3) else bytes in
       case c bytes
     done in
   register "c05.ent" ~doc:"CfiEntriesIter + PartialFDE::parse over well-formed sections from the spec encoder: every order of every subset of zLPRS x eh_frame/debug_frame v1,3,4 x 32/64-bit x endianness, then random entry lists (shared/interleaved CIEs, zero lengths)" (ent_gen "c05.ent" ~raw:false);
